@@ -17,6 +17,7 @@ import (
 	"strconv"
 	"strings"
 	"sync"
+	"sync/atomic"
 	"time"
 
 	"github.com/mattn/go-runewidth"
@@ -24,7 +25,11 @@ import (
 	"github.com/vbauerster/mpb/v8/decor"
 )
 
-func init() { families["frames"] = runFramesFamily }
+func init() {
+	families["frames"] = runFramesFamily
+	families["sched"] = runFramesFamily  // same scenarios under scheduling perturbation at the hook points
+	families["faults"] = runFramesFamily // same scenarios with one injected render error
+}
 
 type barSpec struct {
 	total  int64
@@ -35,6 +40,8 @@ type barSpec struct {
 	xrows  int
 	xrev   bool
 	syncW  int // >0: the marker decorator is width-synchronised with minimum width syncW
+	shut   int // >=0: a shutdown-listening decorator wrapped shut levels deep (-1: none)
+	shutSide int // 0 prepend, 1 append
 }
 
 const noPrio = -1000000
@@ -49,12 +56,18 @@ type scenario struct {
 	notifier bool
 	bars     []barSpec
 	steps    []string
+	fault    string // "", "fill:i:k", "ext:i:k", "out:k": the k-th call (1-based) returns an error
+	perturb  uint64 // seed of the scheduling perturbation at the hook points (0: none)
 }
 
 func (sc *scenario) header() []string {
-	out := []string{fmt.Sprintf("case %d %s %d %d %d %d %d", sc.k, sc.mode, sc.q, sc.width, b2i(sc.pop), b2i(sc.delay), b2i(sc.notifier))}
+	fault := sc.fault
+	if fault == "" {
+		fault = "-"
+	}
+	out := []string{fmt.Sprintf("case %d %s %d %d %d %d %d %s %d", sc.k, sc.mode, sc.q, sc.width, b2i(sc.pop), b2i(sc.delay), b2i(sc.notifier), fault, sc.perturb)}
 	for i, b := range sc.bars {
-		out = append(out, fmt.Sprintf("bar %d %d %d %d %d %d %d %d %d", i, b.total, b.prio, b2i(b.rm), b2i(b.noPop), b.after, b.xrows, b2i(b.xrev), b.syncW))
+		out = append(out, fmt.Sprintf("bar %d %d %d %d %d %d %d %d %d %d %d", i, b.total, b.prio, b2i(b.rm), b2i(b.noPop), b.after, b.xrows, b2i(b.xrev), b.syncW, b.shut, b.shutSide))
 	}
 	return out
 }
@@ -75,10 +88,21 @@ func parseScenarios(path string) ([]*scenario, error) {
 		switch f[0] {
 		case "case":
 			cur = &scenario{k: atoi(f[1]), mode: f[2], q: atoi(f[3]), width: atoi(f[4]), pop: f[5] == "1", delay: f[6] == "1", notifier: f[7] == "1"}
+			if len(f) > 8 && f[8] != "-" {
+				cur.fault = f[8]
+			}
+			if len(f) > 9 {
+				pv, _ := strconv.ParseUint(f[9], 10, 64)
+				cur.perturb = pv
+			}
 			out = append(out, cur)
 		case "bar":
 			t, _ := strconv.ParseInt(f[2], 10, 64)
-			cur.bars = append(cur.bars, barSpec{total: t, prio: atoi(f[3]), rm: f[4] == "1", noPop: f[5] == "1", after: atoi(f[6]), xrows: atoi(f[7]), xrev: f[8] == "1", syncW: atoi(f[9])})
+			bsp := barSpec{total: t, prio: atoi(f[3]), rm: f[4] == "1", noPop: f[5] == "1", after: atoi(f[6]), xrows: atoi(f[7]), xrev: f[8] == "1", syncW: atoi(f[9]), shut: -1}
+			if len(f) > 11 {
+				bsp.shut, bsp.shutSide = atoi(f[10]), atoi(f[11])
+			}
+			cur.bars = append(cur.bars, bsp)
 		case "s":
 			cur.steps = append(cur.steps, strings.Join(f[1:], " "))
 		}
@@ -117,7 +141,7 @@ func genScenario(r *rng, k int, tier string) *scenario {
 	sc.notifier = r.chance(1, 3)
 	// bars and the order in which they are created
 	for i := 0; i < n; i++ {
-		b := barSpec{total: int64(1 + r.intn(20)), prio: noPrio, after: -1}
+		b := barSpec{total: int64(1 + r.intn(20)), prio: noPrio, after: -1, shut: -1}
 		if r.chance(1, 8) {
 			b.total = 0
 		}
@@ -141,6 +165,10 @@ func genScenario(r *rng, k int, tier string) *scenario {
 		}
 		if r.chance(1, 3) {
 			b.syncW = 1 + r.intn(12)
+		}
+		b.shut = -1
+		if r.chance(1, 3) {
+			b.shut, b.shutSide = r.intn(5), r.intn(2)
 		}
 		sc.bars = append(sc.bars, b)
 	}
@@ -269,7 +297,34 @@ func runFramesFamily(c *runCtx) error {
 	} else {
 		root := newRng(c.seed)
 		for k := 0; k < c.n; k++ {
-			list = append(list, genScenario(root.fork(), k, c.tier))
+			r := root.fork()
+			sc := genScenario(r, k, c.tier)
+			switch c.family {
+			case "sched":
+				sc.perturb = r.u64() | 1
+				if r.chance(1, 2) {
+					sc.q = r.pickInt([]int{0, 1, 2})
+				}
+			case "faults":
+				nb := len(sc.bars)
+				switch r.intn(3) {
+				case 0:
+					sc.fault = fmt.Sprintf("fill:%d:%d", r.intn(nb), 1+r.intn(4))
+				case 1:
+					// an extender fault needs a bar with extender rows
+					i := r.intn(nb)
+					if sc.bars[i].xrows == 0 {
+						sc.bars[i].xrows = 1
+					}
+					sc.fault = fmt.Sprintf("ext:%d:%d", i, 1+r.intn(4))
+				default:
+					sc.fault = fmt.Sprintf("out:%d", 1+r.intn(4))
+				}
+				if r.chance(1, 2) {
+					sc.perturb = r.u64() | 1
+				}
+			}
+			list = append(list, sc)
 		}
 	}
 	for _, sc := range list {
@@ -369,8 +424,8 @@ func execScenario(c *runCtx, sc *scenario, eo *execOpts) ([]string, error) {
 	setTrace(t)
 	defer setTrace(nil)
 	hdr := sc.header()
-	if eo != nil && eo.perturbSeed != 0 {
-		pr := newRng(eo.perturbSeed)
+	if sc.perturb != 0 {
+		pr := newRng(sc.perturb)
 		var pmu sync.Mutex
 		t.perturb = func(point int) {
 			pmu.Lock()
@@ -394,6 +449,20 @@ func execScenario(c *runCtx, sc *scenario, eo *execOpts) ([]string, error) {
 	}
 
 	out := &outWriter{t: t}
+	faultKind, faultBar, faultK := "", -1, 0
+	if sc.fault != "" {
+		ff := strings.Split(sc.fault, ":")
+		faultKind = ff[0]
+		if faultKind == "out" {
+			faultK, _ = strconv.Atoi(ff[1])
+			out.failAt = faultK
+		} else {
+			faultBar, _ = strconv.Atoi(ff[1])
+			faultK, _ = strconv.Atoi(ff[2])
+		}
+		c.count("fault_" + faultKind)
+	}
+	shutCounts := make([]*int32, len(sc.bars))
 	ctx, cancel := context.WithCancel(context.Background())
 	defer cancel()
 	opts := []mpb.ContainerOption{mpb.WithOutput(out), mpb.WithWidth(sc.width), mpb.WithDebugOutput(&dbgWriter{t: t})}
@@ -444,23 +513,41 @@ func execScenario(c *runCtx, sc *scenario, eo *execOpts) ([]string, error) {
 	barrier := func() bool { // a no-op closure through the container goroutine
 		return withTimeout(func() { _, _ = p.Write(nil) })
 	}
+	containerDown := func() bool { // the container cancelled itself (render error) or is done
+		t.mu.Lock()
+		defer t.mu.Unlock()
+		for _, pt := range t.points {
+			if pt == pCtRenderErr || pt == pCtDone || pt == pCtExit {
+				return true
+			}
+		}
+		return false
+	}
 	doTick := func() bool {
 		s0 := t.length()
+		sent := false
 		ok := withTimeout(func() {
-			if sc.mode == "manual" {
-				select {
-				case manual <- time.Now():
-				case <-ctx.Done():
-				}
-			} else {
-				select {
-				case tick <- time.Now():
-				case <-ctx.Done():
+			for !sent && ctx.Err() == nil && !containerDown() {
+				if sc.mode == "manual" {
+					select {
+					case manual <- time.Now():
+						sent = true
+					case <-time.After(10 * time.Millisecond):
+					}
+				} else {
+					select {
+					case tick <- time.Now():
+						sent = true
+					case <-time.After(10 * time.Millisecond):
+					}
 				}
 			}
 		})
 		if !ok {
 			return false
+		}
+		if !sent {
+			return barrier()
 		}
 		// wait until a render cycle that began after the tick has ended
 		ok = t.waitFor(hangTimeout, func(points []int) bool {
@@ -521,12 +608,44 @@ func execScenario(c *runCtx, sc *scenario, eo *execOpts) ([]string, error) {
 			}
 			if bs.xrows > 0 {
 				nx := bs.xrows
+				ncall := 0
 				bopts = append(bopts, mpb.BarExtender(mpb.BarFillerFunc(func(w io.Writer, _ decor.Statistics) error {
+					ncall++
+					if faultKind == "ext" && faultBar == i && ncall == faultK {
+						t.add(0, "FAULT ext b%d %d", i, ncall)
+						return fmt.Errorf("injected extender error b%d", i)
+					}
 					for j := 0; j < nx; j++ {
 						fmt.Fprintf(w, "x%d.%d\n", i, j)
 					}
 					return nil
 				}), bs.xrev))
+			}
+			if bs.shut >= 0 {
+				cnt := new(int32)
+				shutCounts[i] = cnt
+				var sd decor.Decorator = &shutListener{WC: (&decor.WC{}).Init(), n: cnt}
+				for j := 0; j < bs.shut; j++ {
+					sd = wrapOne((i+j)%5, sd)
+				}
+				if bs.shutSide == 0 {
+					bopts = append(bopts, mpb.PrependDecorators(marker, deco, sd))
+				} else {
+					bopts = append(bopts, mpb.AppendDecorators(sd))
+				}
+			}
+			var filler mpb.BarFiller = mpb.BarStyle().Build()
+			if faultKind == "fill" && faultBar == i {
+				base := filler
+				ncall := 0
+				filler = mpb.BarFillerFunc(func(w io.Writer, st decor.Statistics) error {
+					ncall++
+					if ncall == faultK {
+						t.add(0, "FAULT fill b%d %d", i, ncall)
+						return fmt.Errorf("injected filler error b%d", i)
+					}
+					return base.Fill(w, st)
+				})
 			}
 			t.mu.Lock()
 			t.pending = i
@@ -534,7 +653,7 @@ func execScenario(c *runCtx, sc *scenario, eo *execOpts) ([]string, error) {
 			t.add(0, "CL_ADD b%d", i)
 			var b *mpb.Bar
 			var err error
-			if !withTimeout(func() { b, err = p.Add(bs.total, mpb.BarStyle().Build(), bopts...) }) {
+			if !withTimeout(func() { b, err = p.Add(bs.total, filler, bopts...) }) {
 				return hang("add")
 			}
 			t.mu.Lock()
@@ -620,6 +739,12 @@ func execScenario(c *runCtx, sc *scenario, eo *execOpts) ([]string, error) {
 		case "cancel":
 			t.add(0, "CL_CANCEL")
 			cancel()
+		case "shutdown":
+			t.add(0, "CL_CANCEL")
+			if !withTimeout(p.Shutdown) {
+				return hang("shutdown")
+			}
+			t.add(0, "RET_SHUTDOWN")
 		case "wait":
 			t.add(0, "CL_WAIT")
 			// The real ticker is silenced (one hour): while Wait is pending the
@@ -690,7 +815,25 @@ func execScenario(c *runCtx, sc *scenario, eo *execOpts) ([]string, error) {
 		return hang("late-add")
 	}
 	t.add(0, "LATE_ADD %d %d", b2i(lb == nil), b2i(lerr == mpb.ErrDone))
-	time.Sleep(2 * time.Millisecond)
+	for i, cnt := range shutCounts {
+		if cnt != nil {
+			t.add(0, "SHUTDOWN b%d %d", i, atomic.LoadInt32(cnt))
+		}
+	}
+	// leak probe: every goroutine with a library frame must be gone after a settle period
+	leaked := -1
+	var stacks string
+	for try := 0; try < 200; try++ {
+		leaked, stacks = libraryGoroutines()
+		if leaked == 0 {
+			break
+		}
+		time.Sleep(5 * time.Millisecond)
+	}
+	t.add(0, "LEAK %d", leaked)
+	if leaked > 0 {
+		_ = os.WriteFile(fmt.Sprintf("%s/leak_%d.stacks", c.outDir, sc.k), []byte(stacks), 0o644)
+	}
 	t.add(0, "END")
 	for name, n := range t.hits {
 		c.stats["hit_"+name] += n
@@ -703,4 +846,29 @@ type dbgWriter struct{ t *traceLog }
 func (w *dbgWriter) Write(p []byte) (int, error) {
 	w.t.add(0, "DBG %q", strings.TrimSpace(string(p)))
 	return len(p), nil
+}
+
+type shutListener struct {
+	decor.WC
+	n *int32
+}
+
+func (d *shutListener) Decor(decor.Statistics) (string, int) { return d.Format("") }
+func (d *shutListener) OnShutdown()                          { atomic.AddInt32(d.n, 1) }
+
+// libraryGoroutines counts goroutines that have a frame of the library on their stack
+func libraryGoroutines() (int, string) {
+	buf := make([]byte, 4<<20)
+	n := runtime.Stack(buf, true)
+	var leaked []string
+	for _, g := range strings.Split(string(buf[:n]), "\n\n") {
+		if strings.Contains(g, "github.com/vbauerster/mpb/v8.") || strings.Contains(g, "github.com/vbauerster/mpb/v8/decor.") ||
+			strings.Contains(g, "/repo/") {
+			if strings.Contains(g, "main.libraryGoroutines") {
+				continue
+			}
+			leaked = append(leaked, g)
+		}
+	}
+	return len(leaked), strings.Join(leaked, "\n\n")
 }
